@@ -68,6 +68,7 @@ type SpecFunc struct {
 	BodySrc string
 	Pkg     string
 	Dec     SExpr
+	Opaque  bool // written with ":=": declare-fun plus a definitional axiom triggered by applications
 }
 
 type Lemma struct {
@@ -560,6 +561,11 @@ func parseSpecFuncDecl(s string) (*SpecFunc, error) {
 	ret := rest
 	if k := strings.Index(rest, "="); k >= 0 {
 		ret = strings.TrimSpace(rest[:k])
+		if strings.HasSuffix(ret, ":") {
+			// name(...) T := body  -- axiomatised definition (kept atomic in formulas)
+			ret = strings.TrimSpace(strings.TrimSuffix(ret, ":"))
+			sf.Opaque = true
+		}
 		sf.BodySrc = strings.TrimSpace(rest[k+1:])
 		e, err := ParseSpec(sf.BodySrc)
 		if err != nil {
